@@ -142,6 +142,7 @@ Fixpoint run_seg (fuel : nat) (sm : sem) (thr : Z) (ps : list gstmt) : list fram
     | GFor _ _ :: _ => ([], thr, StStuck "for")
     | GRange _ _ :: _ => ([], thr, StStuck "range")
     | GLabel _ :: _ => ([], thr, StStuck "label")
+    | GGo _ :: _ => ([], thr, StStuck "go")
     | GBranch _ :: _ => ([], thr, StStuck "branch")
     | GOpaque :: _ => ([], thr, StUnmodelled)
     end
